@@ -227,41 +227,39 @@ func GetAnchors(c *core.Ctx) *Anchors {
 	if a, ok := anchorCache[c.M]; ok {
 		return a
 	}
+	core.PinnedFieldTypes = pinnedFieldTypes
 	a := &Anchors{M: c.M, Eff: c.Eff,
 		LockTests: map[*core.Func]bool{}, Acquire: map[*core.Func]bool{}, Release: map[*core.Func]bool{},
 		AliveTest: map[*core.Func]bool{}, PoolGet: map[*core.Func]bool{}, PoolRecycle: map[*core.Func]bool{}, Fire: map[*core.Func]bool{},
 		mentions: map[*core.Func]map[string]bool{}}
-	// every key of the anchor table must exist in the data model
+	// every key of the anchor table and every key mentioned by a rule must exist in the data model
+	// (a renamed field is found through its unique type, see core.PinnedFieldTypes)
 	owners := map[string]bool{}
+	seenKey := map[string]bool{}
 	for k := range anchorTable {
-		parts := strings.SplitN(k, ".", 2)
-		if c.M.Prog.LookupField(parts[0], parts[1]) == nil {
-			a.Missing = append(a.Missing, k)
-		}
-		owners[parts[0]] = true
+		seenKey[k] = true
+		owners[ownerOf(k)] = true
 	}
-	for _, k := range []string{"lock.locks", "lock.mu", "observerData.callback", "Entity.gen", "Entity.id", "entityPool.entities"} {
-		parts := strings.SplitN(k, ".", 2)
-		if c.M.Prog.LookupField(parts[0], parts[1]) == nil {
+	for k := range seenKey {
+		if c.M.FieldByKey(k) == nil {
 			a.Missing = append(a.Missing, k)
 		}
 	}
 	// every field of the structural owner types must be classified
-	for o := range owners {
+	classified := map[string]bool{}
+	for k := range anchorTable {
+		classified[k] = true
+	}
+	for _, v := range c.M.AllFieldKeys() {
+		o := ownerOf(v)
+		if !owners[o] || o == "World" {
+			continue
+		}
 		if _, ex := exemptOwners[o]; ex {
 			continue
 		}
-		n := c.M.Prog.LookupType(o)
-		if n == nil {
-			continue
-		}
-		if st, ok := n.Underlying().(*types.Struct); ok {
-			for i := 0; i < st.NumFields(); i++ {
-				k := o + "." + st.Field(i).Name()
-				if _, ok := anchorTable[k]; !ok && o != "World" {
-					a.Missing = append(a.Missing, "unclassified field "+k)
-				}
-			}
+		if !classified[v] {
+			a.Missing = append(a.Missing, "unclassified field "+v)
 		}
 	}
 	sort.Strings(a.Missing)
@@ -483,4 +481,25 @@ func (a *Anchors) Dump() {
 	p("pool-recycle", a.PoolRecycle)
 	p("fire", a.Fire)
 	println("missing:", strings.Join(a.Missing, "; "))
+}
+
+// MissingFor returns the unresolved anchors that matter for one property: the anchor table (shared by all path rules)
+// and the field keys that the property's own, shared and borrowed rules mention.
+func (a *Anchors) MissingFor(prop string) []string {
+	out := append([]string{}, a.Missing...)
+	for _, k := range ruleKeysByProp[prop] {
+		if a.M.FieldByKey(k) == nil {
+			dup := false
+			for _, o := range out {
+				if o == k {
+					dup = true
+				}
+			}
+			if !dup {
+				out = append(out, k)
+			}
+		}
+	}
+	sort.Strings(out)
+	return out
 }
